@@ -39,13 +39,29 @@ pub struct Sparse {
     pos: u64,
     len: u64,
     small: BTreeMap<u64, Vec<u8>>,
+    /// also writes of 512..65535 bytes that are all zero and overwrite nothing become holes (`io::copy` moves a
+    /// raw copy through an 8 KiB buffer)
+    zero_holes: bool,
 }
 impl Sparse {
-    pub fn new() -> Sparse { Sparse { pos: 0, len: 0, small: BTreeMap::new() } }
+    pub fn new() -> Sparse { Sparse { pos: 0, len: 0, small: BTreeMap::new(), zero_holes: false } }
+    pub fn zero_holes() -> Sparse { Sparse { pos: 0, len: 0, small: BTreeMap::new(), zero_holes: true } }
+    fn overlaps(&self, s: u64, e: u64) -> bool {
+        self.small.range(s..e).next().is_some()
+            || self.small.range(..s).next_back().map(|(k, v)| *k + v.len() as u64 > s).unwrap_or(false)
+    }
+    /// The whole content in one zero-initialised allocation (the holes stay untouched zero pages of it).
+    pub fn materialize(&self) -> Vec<u8> {
+        let mut v = vec![0u8; self.len as usize];
+        for (k, c) in &self.small { v[*k as usize..*k as usize + c.len()].copy_from_slice(c); }
+        v
+    }
 }
 impl Write for Sparse {
     fn write(&mut self, buf: &[u8]) -> std::io::Result<usize> {
-        if buf.len() < 65536 {
+        if self.zero_holes && buf.len() >= 512 && buf.len() < 65536 && buf.iter().all(|b| *b == 0) && !self.overlaps(self.pos, self.pos + buf.len() as u64) {
+            // a hole
+        } else if buf.len() < 65536 {
             // drop overlapped older chunks that start inside the new one (headers are rewritten field by field)
             let end = self.pos + buf.len() as u64;
             let keys: Vec<u64> = self.small.range(self.pos..end).map(|(k, _)| *k).collect();
@@ -319,6 +335,218 @@ fn cguard_scenario(usize_: u64, extra: u64) -> String {
     match r { Ok(Ok(s)) => s, Ok(Err(e)) => format!("FAIL {e}"), Err(m) => format!("FAIL panic {m}") }
 }
 
+// ---------------------------------------------------------------------------------------------
+// raw copies of ZIP64-sized entries (C14 / C08): sparse source archive -> sparse sink
+
+const M32: u64 = 0xFFFF_FFFF;
+pub const RC_SRC_NAME: &[u8] = b"src.bin";
+
+fn p16(v: &mut Vec<u8>, x: u64) { v.extend_from_slice(&(x as u16).to_le_bytes()); }
+fn p32(v: &mut Vec<u8>, x: u64) { v.extend_from_slice(&(x as u32).to_le_bytes()); }
+fn p64(v: &mut Vec<u8>, x: u64) { v.extend_from_slice(&x.to_le_bytes()); }
+
+/// A one-entry archive of an independent producer, laid out from APPNOTE 4.3.7 / 4.3.12 / 4.3.14-16 / 4.5.3 (not
+/// with the crate's writer): entry `src.bin`, method `m`, DOS time 1980-01-01 00:00, made by Unix with mode
+/// 0o100644, declared CRC `crc`, `cs` stored bytes that are a HOLE of the sparse reader (all zero) and declared
+/// uncompressed size `us`.  A size that does not fit 32 bits or equals the marker 0xFFFFFFFF is carried by the
+/// ZIP64 extended information record (local: both sizes; central: the marked fields, order uncompressed,
+/// compressed); ZIP64 end record + locator when the directory offset needs them.
+fn rc_sparse_source(cs: u64, us: u64, m: u16, crc: u32) -> std::io::Result<Sparse> {
+    let z = cs >= M32 || us >= M32;
+    let mut s = Sparse::new();
+    let mut h = vec![];
+    p32(&mut h, 0x04034b50); p16(&mut h, if z { 45 } else { 20 }); p16(&mut h, 0); p16(&mut h, m as u64); p16(&mut h, 0); p16(&mut h, 0x21);
+    p32(&mut h, crc as u64);
+    if z { p32(&mut h, M32); p32(&mut h, M32); } else { p32(&mut h, cs); p32(&mut h, us); }
+    p16(&mut h, RC_SRC_NAME.len() as u64); p16(&mut h, if z { 20 } else { 0 });
+    h.extend_from_slice(RC_SRC_NAME);
+    if z { p16(&mut h, 1); p16(&mut h, 16); p64(&mut h, us); p64(&mut h, cs); }
+    s.write_all(&h)?;
+    let cd_off = h.len() as u64 + cs;
+    s.seek(SeekFrom::Start(cd_off))?;
+    let mut x = vec![];
+    if us >= M32 { p64(&mut x, us); }
+    if cs >= M32 { p64(&mut x, cs); }
+    let mut c = vec![];
+    p32(&mut c, 0x02014b50); p16(&mut c, 0x0300 | 45); p16(&mut c, if z { 45 } else { 20 }); p16(&mut c, 0); p16(&mut c, m as u64); p16(&mut c, 0); p16(&mut c, 0x21);
+    p32(&mut c, crc as u64); p32(&mut c, cs.min(M32)); p32(&mut c, us.min(M32));
+    p16(&mut c, RC_SRC_NAME.len() as u64); p16(&mut c, if x.is_empty() { 0 } else { 4 + x.len() as u64 }); p16(&mut c, 0); p16(&mut c, 0); p16(&mut c, 0);
+    p32(&mut c, 0o100644 << 16); p32(&mut c, 0);
+    c.extend_from_slice(RC_SRC_NAME);
+    if !x.is_empty() { p16(&mut c, 1); p16(&mut c, x.len() as u64); c.extend_from_slice(&x); }
+    let cd_size = c.len() as u64;
+    if cd_off >= M32 {
+        p32(&mut c, 0x06064b50); p64(&mut c, 44); p16(&mut c, 45); p16(&mut c, 45); p32(&mut c, 0); p32(&mut c, 0);
+        p64(&mut c, 1); p64(&mut c, 1); p64(&mut c, cd_size); p64(&mut c, cd_off);
+        p32(&mut c, 0x07064b50); p32(&mut c, 0); p64(&mut c, cd_off + cd_size); p32(&mut c, 1);
+    }
+    p32(&mut c, 0x06054b50); p16(&mut c, 0); p16(&mut c, 0); p16(&mut c, 1); p16(&mut c, 1); p32(&mut c, cd_size); p32(&mut c, cd_off.min(M32)); p16(&mut c, 0);
+    s.write_all(&c)?;
+    s.seek(SeekFrom::Start(0))?;
+    Ok(s)
+}
+
+/// What one raw copy of a ZIP64-sized entry showed.
+#[derive(Clone, Default)]
+pub struct RcBig {
+    /// the destination's local header (fixed part + name + extra field) as it stands after the copy
+    pub hdr: Vec<u8>,
+    /// oracle findings (empty = the clauses hold)
+    pub fails: Vec<String>,
+}
+
+static RC_MEMO: std::sync::Mutex<Option<std::collections::HashMap<String, RcBig>>> = std::sync::Mutex::new(None);
+
+/// `z64.rawcopy cs= us= m= crc= name=same|<hex>`: the source entry is copied with `raw_copy_file` /
+/// `raw_copy_file_rename` into a sparse sink and the archive is finished.  Clauses (implementation alone):
+/// the copy and finish() succeed; the destination's local header holds, per the FORMAT (APPNOTE 4.4.8/4.4.9,
+/// 4.5.3), the ZIP64 extended information record with both sizes exactly when a size does not fit 32 bits or
+/// equals the marker value 0xFFFFFFFF (then both 32-bit fields hold the marker), else the literal sizes; CRC,
+/// method, sizes, time and mode equal the source's; the data are exactly `cs` bytes and the central directory
+/// follows them; `ZipArchive` and the independent strict parser read the result back (CRC of the content
+/// verified for stored entries).
+pub fn rc_big_scenario(cs: u64, us: u64, m: u16, crc: u32, name: &str) -> RcBig {
+    let key = format!("{cs}/{us}/{m}/{crc}/{name}");
+    if let Ok(g) = RC_MEMO.lock() { if let Some(r) = g.as_ref().and_then(|h| h.get(&key)) { return r.clone(); } }
+    let name_owned = name.to_string();
+    let r = catch(move || -> RcBig {
+        let mut out = RcBig::default();
+        let want_name: Vec<u8> = if name_owned == "same" { RC_SRC_NAME.to_vec() } else { unhex(&name_owned).unwrap_or_default() };
+        let src = match rc_sparse_source(cs, us, m, crc) { Ok(s) => s, Err(e) => { out.fails.push(format!("building the source: {}", ioerr_class(&e))); return out; } };
+        let mut a = match zip::ZipArchive::new(src) { Ok(a) => a, Err(e) => { out.fails.push(format!("the source archive does not open: {}", zerr_class(&e))); return out; } };
+        let mut w = zip::ZipWriter::new(Sparse::zero_holes());
+        let rc = {
+            let f = match a.by_index_raw(0) { Ok(f) => f, Err(e) => { out.fails.push(format!("source entry: {}", zerr_class(&e))); return out; } };
+            if f.compressed_size() != cs || f.size() != us || f.crc32() != crc { out.fails.push(format!("the source entry reads as {} / {} bytes, crc {:08x}; built with {cs} / {us}, {crc:08x}", f.compressed_size(), f.size(), f.crc32())); return out; }
+            if name_owned == "same" { w.raw_copy_file(f) } else { w.raw_copy_file_rename(f, String::from_utf8_lossy(&want_name).into_owned()) }
+        };
+        let fin = w.finish();
+        if let Err(e) = &rc { out.fails.push(format!("raw copy of an entry of {cs} stored / {us} uncompressed bytes failed: {}", zerr_class(e))); }
+        let mut sink = match fin {
+            Ok(s) => s,
+            Err(e) => { out.fails.push(format!("finish() after the raw copy failed: {}", zerr_class(&e))); return out; }
+        };
+        // ---- the destination's local header, read from the sink
+        let total = sink.seek(SeekFrom::End(0)).unwrap_or(0);
+        let mut fixed = [0u8; 30];
+        if sink.seek(SeekFrom::Start(0)).is_err() || sink.read_exact(&mut fixed).is_err() { out.fails.push("the sink holds no local header".into()); return out; }
+        let (nl, xl) = (u16::from_le_bytes([fixed[26], fixed[27]]) as usize, u16::from_le_bytes([fixed[28], fixed[29]]) as usize);
+        let mut rest = vec![0u8; nl + xl];
+        if sink.read_exact(&mut rest).is_err() { out.fails.push("the local header runs past the end of the sink".into()); return out; }
+        out.hdr = fixed.to_vec(); out.hdr.extend_from_slice(&rest);
+        if rc.is_err() { return out; }
+        let g32 = |o: usize| u32::from_le_bytes([fixed[o], fixed[o + 1], fixed[o + 2], fixed[o + 3]]) as u64;
+        let (lcs, lus) = (g32(18), g32(22));
+        let z: Vec<(u16, Vec<u8>)> = match crate::strict::parse_extra(&rest[nl..]) { Ok(r) => r.into_iter().filter(|r| r.0 == 1).collect(), Err(e) => { out.fails.push(format!("local extra field: {e}")); vec![] } };
+        if cs >= M32 || us >= M32 {
+            // a size does not fit, or equals the marker: its field holds the marker (the other one the marker or its
+            // value) and the record holds both sizes
+            let fld = |v: u64, got: u64| if v >= M32 { got == M32 } else { got == v || got == M32 };
+            if !fld(cs, lcs) || !fld(us, lus) { out.fails.push(format!("sizes {cs} / {us}: the local 32-bit size fields hold {lcs} / {lus}")); }
+            let mut want = vec![]; p64(&mut want, us); p64(&mut want, cs);
+            if z.len() != 1 { out.fails.push(format!("sizes {cs} / {us}: a size does not fit 32 bits or equals the marker 0xFFFFFFFF, so the local header needs the ZIP64 extended information record; it has {}", z.len())); }
+            else if z[0].1 != want { out.fails.push(format!("local ZIP64 record {} does not hold the sizes {us} / {cs}", hex(&z[0].1))); }
+        } else if lcs != cs || lus != us {
+            out.fails.push(format!("local size fields {lcs} / {lus}, the source entry has {cs} / {us}"));
+        }
+        if &rest[..nl] != &want_name[..] { out.fails.push("the local header's name is not the requested one".into()); }
+        let data_start = out.hdr.len() as u64;
+        // ---- the independent strict parser on the whole sink (holes are untouched zero pages; nothing is decoded)
+        {
+            let img = sink.materialize();
+            let rep = crate::strict::strict_parse(&img, &crate::strict::StrictOpts { decode: false, ..Default::default() });
+            for e in &rep.errors { out.fails.push(format!("strict parser: {e}")); }
+            match &rep.view {
+                None => out.fails.push("strict parser: no view of the result".into()),
+                Some(v) => {
+                    if v.entries.len() != 1 { out.fails.push(format!("strict parser: {} entries", v.entries.len())); }
+                    else {
+                        let e = &v.entries[0];
+                        if e.name != want_name || e.method != m || e.crc != crc || e.compressed_size != cs || e.uncompressed_size != us || e.dos_date != 0x21 || e.dos_time != 0 || e.external_attrs >> 16 != 0o100644 {
+                            out.fails.push(format!("strict parser: the copy's central record (method {}, crc {:08x}, sizes {} / {}, date {:04x}, attributes {:o}) differs from the source's (method {m}, crc {crc:08x}, sizes {cs} / {us}, date 0021, mode 100644)", e.method, e.crc, e.compressed_size, e.uncompressed_size, e.dos_date, e.external_attrs >> 16));
+                        }
+                        if e.data_start != data_start || e.data_end != v.cd_offset { out.fails.push(format!("strict parser: data [{}, {}) but the header ends at {data_start} and the directory starts at {}", e.data_start, e.data_end, v.cd_offset)); }
+                    }
+                }
+            }
+        }
+        // ---- the crate's reader
+        if sink.seek(SeekFrom::Start(0)).is_err() { return out; }
+        let mut d = match zip::ZipArchive::new(sink) { Ok(d) => d, Err(e) => { out.fails.push(format!("the result does not open: {}", zerr_class(&e))); return out; } };
+        if d.len() != 1 { out.fails.push(format!("the result has {} entries", d.len())); return out; }
+        {
+            let mut f = match d.by_index_raw(0) { Ok(f) => f, Err(e) => { out.fails.push(format!("destination entry: {}", zerr_class(&e))); return out; } };
+            #[allow(deprecated)]
+            let dm = f.compression().to_u16();
+            let t = f.last_modified();
+            if f.name().as_bytes() != &want_name[..] || dm != m || f.crc32() != crc || f.compressed_size() != cs || f.size() != us || f.unix_mode() != Some(0o100644)
+                || (t.year(), t.month(), t.day(), t.hour(), t.minute(), t.second()) != (1980, 1, 1, 0, 0, 0) {
+                out.fails.push(format!("the copy reads back as method {dm}, crc {:08x}, sizes {} / {}, mode {:?}; the source has method {m}, crc {crc:08x}, sizes {cs} / {us}, mode 100644", f.crc32(), f.compressed_size(), f.size(), f.unix_mode()));
+            }
+            if f.data_start() != data_start { out.fails.push(format!("data_start {} != end of the local header {data_start}", f.data_start())); }
+            match std::io::copy(&mut f, &mut ZeroCheck) {
+                Ok(n) if n == cs => {}
+                Ok(n) => out.fails.push(format!("the copy's raw data are {n} bytes, the source has {cs}")),
+                Err(e) => out.fails.push(format!("reading the copy's raw data: {}", ioerr_class(&e))),
+            }
+        }
+        if m == 0 && cs == us {
+            // a stored entry: the decoding reader checks the CRC of the content
+            match d.by_index(0) {
+                Err(e) => out.fails.push(format!("destination entry (decoding): {}", zerr_class(&e))),
+                Ok(mut f) => match std::io::copy(&mut f, &mut std::io::sink()) {
+                    Ok(n) if n == us => {}
+                    Ok(n) => out.fails.push(format!("the copy decodes to {n} bytes, {us} expected")),
+                    Err(e) => out.fails.push(format!("reading the copy: {}", ioerr_class(&e))),
+                },
+            }
+        }
+        let _ = total;
+        out
+    });
+    let r = match r { Ok(r) => r, Err(m) => RcBig { hdr: vec![], fails: vec![format!("panic {m}")] } };
+    if let Ok(mut g) = RC_MEMO.lock() { g.get_or_insert_with(Default::default).insert(key, r.clone()); }
+    r
+}
+
+/// a writer that insists on zero bytes (the source's data are a hole)
+struct ZeroCheck;
+impl Write for ZeroCheck {
+    fn write(&mut self, buf: &[u8]) -> std::io::Result<usize> {
+        if buf.iter().any(|b| *b != 0) { return Err(std::io::Error::new(std::io::ErrorKind::InvalidData, "non-zero byte in the copied data")); }
+        Ok(buf.len())
+    }
+    fn flush(&mut self) -> std::io::Result<()> { Ok(()) }
+}
+
+/// The `z64.rawcopy` lines of one run (shared by the z64 and rawcopy streams).  T = 2^32; the marker is T-1.
+pub fn rc_big_lines(tier: &str) -> Vec<(String, String)> {
+    let t = 1u64 << 32;
+    let mut v: Vec<(String, String)> = vec![];
+    let renamed = hex(b"copy/renamed.bin");
+    let mut k = 0usize;
+    let mut push = |v: &mut Vec<(String, String)>, class: &str, cs: u64, us: u64, m: u16| {
+        k += 1;
+        // stored entries declare the CRC-32 of their `cs` zero bytes (the decoding reader verifies it), the others any
+        let crc = if m == 0 && cs == us { crc_zeros(cs) } else { 0x1234_5678 };
+        v.push((class.to_string(), format!("z64.rawcopy cs={cs} us={us} m={m} crc={crc} name={}", if k % 2 == 0 { "same" } else { &renamed })));
+    };
+    // a huge UNCOMPRESSED size costs nothing (raw copy never decodes): every boundary value, with a small compressed size
+    for us in [t - 2, t - 1, t, t + 1] { push(&mut v, "rawcopy.big-usize", 5, us, 8); }
+    if tier == "thorough" {
+        for cs in [t - 2, t - 1, t, t + 1] {
+            push(&mut v, "rawcopy.big-csize", cs, 5, 95);
+            for us in [t - 2, t - 1, t, t + 1] { push(&mut v, "rawcopy.big-both", cs, us, if cs == us { 0 } else { 95 }); }
+        }
+    } else {
+        // 4 GiB holes through io::copy's 8 KiB buffer: three per run
+        push(&mut v, "rawcopy.big-csize", t, 5, 95);          // only the COMPRESSED size needs ZIP64
+        push(&mut v, "rawcopy.big-csize", t - 1, 7, 95);      // ... equals the marker
+        push(&mut v, "rawcopy.big-both", t - 2, t - 2, 0);    // the largest stored entry that needs none; CRC verified
+    }
+    v
+}
+
 const EDGE: [u64; 14] = [0, 1, 0xFFFE, 0xFFFF, 0x10000, 0xFFFFFFFE, 0xFFFFFFFF, 0x100000000, 0x100000001, 0x140000000, 0x7FFFFFFFFFFFFFFF, 0xFFFFFFFFFFFFFFFE, 0xFFFFFFFFFFFFFFFF, 12345];
 
 impl Stream for Z64 {
@@ -326,7 +554,7 @@ impl Stream for Z64 {
 
     fn gen(&self, seed: u64, tier: &str) -> GenOut {
         let mut g = GenOut::default();
-        g.rule = "z64.central: all triples of boundary values (0, 2^16, 2^32 neighbours, 5 GiB, 2^63, 2^64 neighbours) for (usize, csize, header offset) + random 64-bit triples, with and without further extra data; z64.end: boundary/random (count, size, offset); z64.local: local header with/without large_file; z64.pos (oracle only): the sparse sink is positioned before ZipWriter::new so that a local header or the central directory sits exactly on 2^32-2..2^32+1 / 5 GiB (large_file on/off, stored/deflated non-zero contents; ZipArchive + stream reader + independent strict parser; names, contents and every offset checked); z64.big (oracle only): real archives over a sparse sink with entries of 2^32-2..2^32+1 and 5 GiB bytes, >65535 entries, with/without large_file and comment. non-trivial = some field needs ZIP64".into();
+        g.rule = "z64.central: all triples of boundary values (0, 2^16, 2^32 neighbours, 5 GiB, 2^63, 2^64 neighbours) for (usize, csize, header offset) + random 64-bit triples, with and without further extra data; z64.end: boundary/random (count, size, offset); z64.local: local header with/without large_file; z64.pos (oracle only): the sparse sink is positioned before ZipWriter::new so that a local header or the central directory sits exactly on 2^32-2..2^32+1 / 5 GiB (large_file on/off, stored/deflated non-zero contents; ZipArchive + stream reader + independent strict parser; names, contents and every offset checked); z64.rawcopy: raw copies of entries whose compressed / uncompressed size is 2^32-2 .. 2^32+1 (every value with a small other size, stored entries with both; thorough: all 16 pairs) from a sparse source archive laid out by hand into a sparse sink - model: the local header Model.rawCopy emits; oracle: copy and finish succeed, the local ZIP64 record is present exactly when the FORMAT needs it (a size >= 0xFFFFFFFF), metadata equal the source's, ZipArchive and the strict parser read the result; z64.big (oracle only): real archives over a sparse sink with entries of 2^32-2..2^32+1 and 5 GiB bytes, >65535 entries, with/without large_file and comment. non-trivial = some field needs ZIP64".into();
         for &us in EDGE.iter() { for &cs in EDGE.iter() { for &hs in EDGE.iter() {
             g.push("central.edge", format!("z64.central us={us} cs={cs} hs={hs} extra=- name=61 m=0"));
         }}}
@@ -393,6 +621,8 @@ impl Stream for Z64 {
                 g.push("pos.random", format!("z64.pos target={} which={} n={n} large={} method={} seed={} comment=-", target.max(1 << 20), r.below(n as u64 + 1), r.below(1 << n), *r.pick(&[0u16, 8]), r.below(1 << 20)));
             }
         }
+        // raw copies of ZIP64-sized entries from a sparse source archive into a sparse sink (deterministic)
+        if base { for (class, line) in rc_big_lines(tier) { g.push(&class, line); } }
         // the COMPRESSED-size guard (Deflate level 0 = stored blocks: 4 GiB - 100000 zero bytes compress to more
         // than 0xFFFFFFFF bytes); afterwards the caller keeps writing and finishes
         if tier == "thorough" || tier == "search" {
@@ -456,13 +686,17 @@ impl Stream for Z64 {
                 r.unwrap_or_else(|_| "panic".into())
             }
             "z64.big" | "z64.cguard" | "z64.pos" => "oracle-only".into(),
+            "z64.rawcopy" => {
+                let r = rc_big_scenario(n("cs"), n("us"), n("m") as u16, n("crc") as u32, a.get("name").map(|s| s.as_str()).unwrap_or("same"));
+                format!("hdr={}", hex(&r.hdr))
+            }
             _ => "bad-op".into(),
         }
     }
 
     fn nontrivial(&self, line: &str, _resp: &str) -> bool {
         let (_, a) = parse_line(line);
-        ["us", "cs", "hs", "size", "off"].iter().any(|k| get_u64(&a, k).map(|v| v >= 0xFFFFFFFF).unwrap_or(false)) || line.starts_with("z64.big") || line.starts_with("z64.cguard") || line.starts_with("z64.pos")
+        ["us", "cs", "hs", "size", "off"].iter().any(|k| get_u64(&a, k).map(|v| v >= 0xFFFFFFFF).unwrap_or(false)) || line.starts_with("z64.big") || line.starts_with("z64.cguard") || line.starts_with("z64.pos") || line.starts_with("z64.rawcopy")
     }
 
     fn oracle(&self, line: &str, resp: &str) -> Vec<OracleFailure> {
@@ -490,6 +724,10 @@ impl Stream for Z64 {
             "z64.pos" => {
                 let res = pos_scenario(n("target"), n("which") as usize, n("n") as usize, n("large"), n("method") as u16, n("seed"), &get_hex(&a, "comment").unwrap_or_default());
                 if res.starts_with("FAIL") { f.push(OracleFailure { what: format!("positioned sparse sink: {res}") }); }
+            }
+            "z64.rawcopy" => {
+                let r = rc_big_scenario(n("cs"), n("us"), n("m") as u16, n("crc") as u32, a.get("name").map(|s| s.as_str()).unwrap_or("same"));
+                for w in r.fails { f.push(OracleFailure { what: format!("raw copy of a ZIP64-sized entry: {w}") }); }
             }
             "z64.cguard" => {
                 let res = cguard_scenario(n("usize"), n("extra"));
